@@ -153,6 +153,24 @@ impl Prioritize {
     where
         B: Buf,
     {
+        #[cfg(feature = "verif-hooks")]
+        let _verif = crate::verif::enter("prio.send_data", || {
+            vec![
+                u32::from(stream.id) as i64,
+                stream.state.is_send_streaming() as i64,
+                stream.state.is_send_closed() as i64,
+                stream.state.is_closed() as i64,
+                stream.is_pending_open as i64,
+                isize::from(stream.send_flow.window_size_raw()) as i64,
+                isize::from(stream.send_flow.available()) as i64,
+                stream.requested_send_capacity as i64,
+                stream.buffered_send_data as i64,
+                isize::from(self.flow.window_size_raw()) as i64,
+                isize::from(self.flow.available()) as i64,
+                frame.payload().remaining() as i64,
+                frame.is_end_stream() as i64,
+            ]
+        });
         let sz = frame.payload().remaining();
 
         if sz > MAX_WINDOW_SIZE as usize {
@@ -228,6 +246,23 @@ impl Prioritize {
         stream: &mut store::Ptr,
         counts: &mut Counts,
     ) {
+        #[cfg(feature = "verif-hooks")]
+        let _verif = crate::verif::enter("prio.reserve_capacity", || {
+            vec![
+                u32::from(stream.id) as i64,
+                stream.state.is_send_streaming() as i64,
+                stream.state.is_send_closed() as i64,
+                stream.state.is_closed() as i64,
+                stream.is_pending_open as i64,
+                isize::from(stream.send_flow.window_size_raw()) as i64,
+                isize::from(stream.send_flow.available()) as i64,
+                stream.requested_send_capacity as i64,
+                stream.buffered_send_data as i64,
+                isize::from(self.flow.window_size_raw()) as i64,
+                isize::from(self.flow.available()) as i64,
+                capacity as i64,
+            ]
+        });
         let span = tracing::trace_span!(
             "reserve_capacity",
             ?stream.id,
@@ -288,6 +323,23 @@ impl Prioritize {
         inc: WindowSize,
         stream: &mut store::Ptr,
     ) -> Result<(), Reason> {
+        #[cfg(feature = "verif-hooks")]
+        let _verif = crate::verif::enter("prio.recv_stream_window_update", || {
+            vec![
+                u32::from(stream.id) as i64,
+                stream.state.is_send_streaming() as i64,
+                stream.state.is_send_closed() as i64,
+                stream.state.is_closed() as i64,
+                stream.is_pending_open as i64,
+                isize::from(stream.send_flow.window_size_raw()) as i64,
+                isize::from(stream.send_flow.available()) as i64,
+                stream.requested_send_capacity as i64,
+                stream.buffered_send_data as i64,
+                isize::from(self.flow.window_size_raw()) as i64,
+                isize::from(self.flow.available()) as i64,
+                inc as i64,
+            ]
+        });
         let span = tracing::trace_span!(
             "recv_stream_window_update",
             ?stream.id,
@@ -318,6 +370,14 @@ impl Prioritize {
         store: &mut Store,
         counts: &mut Counts,
     ) -> Result<(), Reason> {
+        #[cfg(feature = "verif-hooks")]
+        let _verif = crate::verif::enter("prio.recv_connection_window_update", || {
+            vec![
+                isize::from(self.flow.window_size_raw()) as i64,
+                isize::from(self.flow.available()) as i64,
+                inc as i64,
+            ]
+        });
         // Update the connection's window
         self.flow.inc_window(inc)?;
 
@@ -328,6 +388,22 @@ impl Prioritize {
     /// Reclaim all capacity assigned to the stream and re-assign it to the
     /// connection
     pub fn reclaim_all_capacity(&mut self, stream: &mut store::Ptr, counts: &mut Counts) {
+        #[cfg(feature = "verif-hooks")]
+        let _verif = crate::verif::enter("prio.reclaim_all_capacity", || {
+            vec![
+                u32::from(stream.id) as i64,
+                stream.state.is_send_streaming() as i64,
+                stream.state.is_send_closed() as i64,
+                stream.state.is_closed() as i64,
+                stream.is_pending_open as i64,
+                isize::from(stream.send_flow.window_size_raw()) as i64,
+                isize::from(stream.send_flow.available()) as i64,
+                stream.requested_send_capacity as i64,
+                stream.buffered_send_data as i64,
+                isize::from(self.flow.window_size_raw()) as i64,
+                isize::from(self.flow.available()) as i64,
+            ]
+        });
         let available = stream.send_flow.available().as_size();
         if available > 0 {
             // TODO: proper error handling
@@ -341,6 +417,22 @@ impl Prioritize {
     /// Reclaim just reserved capacity, not buffered capacity, and re-assign
     /// it to the connection
     pub fn reclaim_reserved_capacity(&mut self, stream: &mut store::Ptr, counts: &mut Counts) {
+        #[cfg(feature = "verif-hooks")]
+        let _verif = crate::verif::enter("prio.reclaim_reserved_capacity", || {
+            vec![
+                u32::from(stream.id) as i64,
+                stream.state.is_send_streaming() as i64,
+                stream.state.is_send_closed() as i64,
+                stream.state.is_closed() as i64,
+                stream.is_pending_open as i64,
+                isize::from(stream.send_flow.window_size_raw()) as i64,
+                isize::from(stream.send_flow.available()) as i64,
+                stream.requested_send_capacity as i64,
+                stream.buffered_send_data as i64,
+                isize::from(self.flow.window_size_raw()) as i64,
+                isize::from(self.flow.available()) as i64,
+            ]
+        });
         // only reclaim reserved capacity that isn't already buffered
         if stream.send_flow.available().as_size() as usize > stream.buffered_send_data {
             let reserved =
@@ -375,6 +467,14 @@ impl Prioritize {
     ) where
         R: Resolve,
     {
+        #[cfg(feature = "verif-hooks")]
+        let _verif = crate::verif::enter("prio.assign_connection_capacity", || {
+            vec![
+                isize::from(self.flow.window_size_raw()) as i64,
+                isize::from(self.flow.available()) as i64,
+                inc as i64,
+            ]
+        });
         let span = tracing::trace_span!("assign_connection_capacity", inc);
         let _e = span.enter();
 
@@ -408,6 +508,22 @@ impl Prioritize {
 
     /// Request capacity to send data
     fn try_assign_capacity(&mut self, stream: &mut store::Ptr) {
+        #[cfg(feature = "verif-hooks")]
+        let _verif = crate::verif::enter("prio.try_assign_capacity", || {
+            vec![
+                u32::from(stream.id) as i64,
+                stream.state.is_send_streaming() as i64,
+                stream.state.is_send_closed() as i64,
+                stream.state.is_closed() as i64,
+                stream.is_pending_open as i64,
+                isize::from(stream.send_flow.window_size_raw()) as i64,
+                isize::from(stream.send_flow.available()) as i64,
+                stream.requested_send_capacity as i64,
+                stream.buffered_send_data as i64,
+                isize::from(self.flow.window_size_raw()) as i64,
+                isize::from(self.flow.available()) as i64,
+            ]
+        });
         // Streams over the max concurrent count should not have capacity assign to avoid starving the connection
         // capacity for open streams
         if stream.is_pending_open {
@@ -665,6 +781,22 @@ impl Prioritize {
     }
 
     pub fn clear_queue<B>(&mut self, buffer: &mut Buffer<Frame<B>>, stream: &mut store::Ptr) {
+        #[cfg(feature = "verif-hooks")]
+        let _verif = crate::verif::enter("prio.clear_queue", || {
+            vec![
+                u32::from(stream.id) as i64,
+                stream.state.is_send_streaming() as i64,
+                stream.state.is_send_closed() as i64,
+                stream.state.is_closed() as i64,
+                stream.is_pending_open as i64,
+                isize::from(stream.send_flow.window_size_raw()) as i64,
+                isize::from(stream.send_flow.available()) as i64,
+                stream.requested_send_capacity as i64,
+                stream.buffered_send_data as i64,
+                isize::from(self.flow.window_size_raw()) as i64,
+                isize::from(self.flow.available()) as i64,
+            ]
+        });
         let span = tracing::trace_span!("clear_queue", ?stream.id);
         let _e = span.enter();
 
@@ -805,6 +937,26 @@ impl Prioritize {
 
                             // Update the flow control
                             tracing::trace_span!("updating stream flow").in_scope(|| {
+                                #[cfg(feature = "verif-hooks")]
+                                crate::verif::ev("prio.pop_data", || {
+                                    vec![
+                                        u32::from(stream.id) as i64,
+                                        stream.state.is_send_streaming() as i64,
+                                        stream.state.is_send_closed() as i64,
+                                        stream.state.is_closed() as i64,
+                                        stream.is_pending_open as i64,
+                                        isize::from(stream.send_flow.window_size_raw()) as i64,
+                                        isize::from(stream.send_flow.available()) as i64,
+                                        stream.requested_send_capacity as i64,
+                                        stream.buffered_send_data as i64,
+                                        isize::from(self.flow.window_size_raw()) as i64,
+                                        isize::from(self.flow.available()) as i64,
+                                        sz as i64,
+                                        max_len as i64,
+                                        len as i64,
+                                        frame.is_end_stream() as i64,
+                                    ]
+                                });
                                 stream.send_data(len, self.max_buffer_size);
 
                                 // Assign the capacity back to the connection that
@@ -969,8 +1121,14 @@ impl Prioritize {
         out: &mut Vec<(&'static str, i64)>,
         queues: &mut Vec<(&'static str, Vec<u32>)>,
     ) {
-        out.push(("send_flow_window", isize::from(self.flow.window_size_raw()) as i64));
-        out.push(("send_flow_available", isize::from(self.flow.available()) as i64));
+        out.push((
+            "send_flow_window",
+            isize::from(self.flow.window_size_raw()) as i64,
+        ));
+        out.push((
+            "send_flow_available",
+            isize::from(self.flow.available()) as i64,
+        ));
         out.push(("max_buffer_size", self.max_buffer_size as i64));
         out.push((
             "in_flight_data_frame",
